@@ -295,7 +295,15 @@ let lmode_of (s : string) : lmode * (int * int) option =
   | ["both"; r; i] -> (LReuse (nat_of_int (int_of_string r)), Some (int_of_string r, int_of_string i))
   | _ -> failwith "lmode"
 
+(* operations whose MODEL and SPEC are Coq functions outside the zop language (DotN.v): expand
+   returns a representative zop (for the guard of the operands) and sets these for the reporting
+   operation of the step *)
+let override_model : (z store -> z store * z Model.outcome) option ref = ref None
+let override_spec : (z sstate -> (z sstate * z Model.outcome) option) option ref = ref None
+let override_guard : string option ref = ref None
+
 let expand (o : string) (impl_step : string) : zop list * int =
+  override_model := None; override_spec := None; override_guard := None;
   let f = fields o in
   let nat i = nat_of_int (int_of_string f.(i)) in
   let with_both (lin : lmode -> zop) (mode : string) : zop list * int =
@@ -323,6 +331,28 @@ let expand (o : string) (impl_step : string) : zop list * int =
       match zstep_model !cur_model (ZInner (nat 1, nat 2, z_of_int 0)) with
       | (_, RVal v) -> ([ZBase (ONew (z_of_int 0, [], [v]))], 0)
       | _ -> ([ZInner (nat 1, nat 2, z_of_int (refusal impl_step))], 0)
+    end
+    else if dot_nd_dispatch sa sb then begin
+      (* the general contraction branch of tensor.Dot (DotN.v) *)
+      let (reuse, incr) = (match String.split_on_char '.' f.(3) with
+          | ["safe"] -> (None, None)
+          | ["reuse"; r] -> (Some (nat_of_int (int_of_string r)), None)
+          | ["incr"; r] -> (None, Some (nat_of_int (int_of_string r)))
+          | _ -> failwith "dot nd: mode") in
+      let la = List.length sa - 1 and lb = (if List.length sb >= 2 then List.length sb - 2 else 0) in
+      override_model := Some (fun m -> zdot_nd_full m (nat 1) (nat 2) reuse incr);
+      override_spec := Some (fun st ->
+          match incr with
+          | None -> zdot_nd_spec st (nat 1) (nat 2) reuse
+          | Some r -> zdot_nd_spec_incr st (nat 1) (nat 2) r);
+      (match reuse, incr with
+       | Some r, _ ->
+         let psize = List.fold_left (fun acc d -> acc * int_of_z d) 1
+             (List.filteri (fun i _ -> i < la) sa @ List.filteri (fun i _ -> i <> lb) sb) in
+         if not (dot_nd_reuse_plain !cur_model r (z_of_int psize)) then override_guard := Some "nd-reuse-dest"
+       | None, Some _ -> ()
+       | None, None -> ());
+      ([ZTensorMul (nat 1, nat 2, [z_of_int la], [z_of_int lb], z_of_int 0)], 0)
     end
     else failwith "dot: operand ranks not modelled"
   | _ -> ([parse_op o impl_step], 0)
@@ -405,7 +435,9 @@ let run_prog_gen (kept : bool) dt (prog : string) (impl : string) : outcome =
                 if k <= rep then begin
                   if not !failed then begin
                     if k = rep then before := !st;
-                    let (st', rk) = zstep_model !st opk in
+                    let (st', rk) = (match !override_model with
+                        | Some fm when k = rep -> fm !st
+                        | _ -> zstep_model !st opk) in
                     st := st'; res := rk;
                     if k < rep && (rk = RErr || rk = RPanic) then failed := true
                   end
@@ -458,7 +490,9 @@ let run_prog_gen (kept : bool) dt (prog : string) (impl : string) : outcome =
                    | Some sk ->
                      if k <= rep then begin
                        if not !failed then
-                         (match zstep_spec sk opk with
+                         (match (match !override_spec with
+                             | Some fs when k = rep -> fs sk
+                             | _ -> zstep_spec sk opk) with
                           | None -> cur := None
                           | Some (sk', rk) ->
                             cur := Some sk'; res := rk;
@@ -490,6 +524,7 @@ let run_prog_gen (kept : bool) dt (prog : string) (impl : string) : outcome =
                 let ids = match Hashtbl.find_opt extra_operands f.(0) with
                   | Some g -> g f | None -> operand_ids o in
                 let gn = (match conv with Some (_, _, g) -> g | None -> gname (zguard before op)) in
+                let gn = (match !override_guard with Some g -> g | None -> gn) in
                 let gn = if gn = "other" then "L" ^ String.concat "," (List.map (layout_tag before) ids) else gn in
                 (* TensorMul with negative axes (named in the glue: the Coq guard has no case for it) *)
                 let gn = if f.(0) = "tmul" && List.exists (fun x -> x < 0) (ints f.(3) @ ints f.(4)) then "negative-axes" else gn in
